@@ -374,6 +374,17 @@ def corr_state_povm(ctx, pend, cfg, g, eps):
                  f"{cfg.name}/to_var_from_density_matrix(False)/{lab}")
         pend.add("toVarFromDensity", hd + [cl(m), eps, "1"], lambda m=m: S.to_var_from_density_matrix(c, m), "r",
                  f"{cfg.name}/to_var_from_density_matrix(True)/{lab}")
+    # matrix_basis.py expansion helpers: complex coefficients of any matrix, the Hermitian variant (through truncate_hs), and back
+    if n == d * d:
+        for lab, m in [("hermitian", rand_herm(g, d)), ("nonhermitian", rand_c(g, (d, d))), ("unit", herm_basis(d)[1])]:
+            pend.add("vecOfDensityRaw", hd + [cl(m)], lambda m=m: mb.calc_matrix_expansion_coefficient(m, c.basis()), "c",
+                     f"{cfg.name}/calc_matrix_expansion_coefficient/{lab}")
+            if lab != "nonhermitian":
+                pend.add("vecOfDensity", hd + [cl(m), eps], lambda m=m: mb.calc_hermitian_matrix_expansion_coefficient_hermitian_basis(m, c.basis()), "r",
+                         f"{cfg.name}/calc_hermitian_matrix_expansion_coefficient_hermitian_basis/{lab}")
+        for lab, v in [("real", g.standard_normal(n)), ("complex", rand_c(g, n))]:
+            pend.add("densityLoop", hd + [cl(v)], lambda v=v: mb.calc_mat_from_coefficient_basis(v, c.basis()), "c",
+                     f"{cfg.name}/calc_mat_from_coefficient_basis/{lab}")
     # POVMs with 2..4 outcomes (physical, rank deficient, non-physical)
     for m in (2, 3, 4):
         for lab in ("physical", "rank1", "nonphysical"):
@@ -490,16 +501,18 @@ def corr_gate(ctx, pend, cfg, g, eps):
     # MProcess: per-outcome conversions (the class accepts only bases whose 0th element is ∝ identity)
     for m in ((2, 3) if c.is_orthonormal_hermitian_0thprop_identity else ()):
         mp, _ = qobj.rand_mprocess(g, c, m, kraus_rank=1 + (m % 2), required=False)
-        for i in range(m):
-            hs = mp.hss[i]
-            pend.add("choiLoop", hd + [cl(hs)], lambda mp=mp, i=i: mp.to_choi_matrix(i), "c", f"{cfg.name}/MProcess.to_choi_matrix({i})/m{m}")
-            pend.add("choiDict", hd + [cl(hs)], lambda mp=mp, i=i: mp.to_choi_matrix_with_dict(i), "c", f"{cfg.name}/MProcess.to_choi_matrix_with_dict({i})/m{m}")
-            pend.add("choiSparse", hd + [cl(hs)], lambda mp=mp, i=i: mp.to_choi_matrix_with_sparsity(i), "c",
-                     f"{cfg.name}/MProcess.to_choi_matrix_with_sparsity({i})/m{m}")
-            pend.add("processMatrix", hd + [cl(hs)], lambda mp=mp, i=i: mp.to_process_matrix(i), "c", f"{cfg.name}/MProcess.to_process_matrix({i})/m{m}")
-            for mode in ("row_major", "column_major"):
-                pend.add("convertToComp", hd + [cl(hs), mode], lambda mp=mp, i=i, mode=mode: mp.convert_to_comp_basis(mode)[i], "c",
-                         f"{cfg.name}/MProcess.convert_to_comp_basis({mode})[{i}]/m{m}")
+        allhs = cl(np.array(mp.hss))
+        for i in range(m + 1):      # i = m: IndexError of MProcess.hs(index)
+            for variant, meth in (("loop", "to_choi_matrix"), ("dict", "to_choi_matrix_with_dict"), ("sparse", "to_choi_matrix_with_sparsity"),
+                                  ("process", "to_process_matrix")):
+                pend.add("mpChoi", [variant] + hd + [m, allhs, i], lambda mp=mp, i=i, meth=meth: getattr(mp, meth)(i), "c",
+                         f"{cfg.name}/MProcess.{meth}({i})/m{m}")
+        for mode in ("row_major", "column_major"):      # the whole returned list
+            pend.add("mpConvertToComp", hd + [m, allhs, mode], lambda mp=mp, mode=mode: np.array(mp.convert_to_comp_basis(mode)), "c",
+                     f"{cfg.name}/MProcess.convert_to_comp_basis({mode})/m{m}")
+        for oname, ob in other_bases(cfg)[2:5]:
+            pend.add("mpConvertBasis", [d, n, Bq, cl(dense_basis(ob)), m, allhs], lambda mp=mp, ob=ob: np.array(mp.convert_basis(ob)), "c",
+                     f"{cfg.name}/MProcess.convert_basis(->{oname})/m{m}")
 
 
 def sparse_stored(b):
@@ -823,6 +836,14 @@ def chk_density(cfg, rho):
         need(dev(back, rho), f"C02/{nm}/roundtrip/matrix-vec-matrix", "matrix -> vec -> matrix is not the identity")
     var = call("C02/state/to_var_from_density_matrix", lambda: S.to_var_from_density_matrix(c, rho, on_para_eq_constraint=False))
     need(dev(var, ref), "C02/state/to_var_from_density_matrix/formula", "to_var_from_density_matrix != tr(B_a^† ρ)")
+    if cfg.n == cfg.d ** 2:
+        co = call("C02/matrix_basis.calc_matrix_expansion_coefficient", lambda: mb.calc_matrix_expansion_coefficient(rho, c.basis()))
+        need(dev(co, ref), "C02/matrix_basis.calc_matrix_expansion_coefficient/formula", "!= tr(B_a^† M)")
+        back = call("C02/matrix_basis.calc_mat_from_coefficient_basis", lambda: mb.calc_mat_from_coefficient_basis(co, c.basis()))
+        need(dev(back, rho), "C02/matrix_basis/roundtrip/matrix-coefficients-matrix", "calc_mat_from_coefficient_basis(calc_matrix_expansion_coefficient(M)) != M")
+        hc = call("C02/matrix_basis.calc_hermitian_matrix_expansion_coefficient_hermitian_basis",
+                  lambda: mb.calc_hermitian_matrix_expansion_coefficient_hermitian_basis(rho, c.basis()))
+        need(dev(hc, ref), "C02/matrix_basis.calc_hermitian_matrix_expansion_coefficient_hermitian_basis/formula", "!= tr(B_a^† M)")
     var = call("C02/state/to_var_from_density_matrix", lambda: S.to_var_from_density_matrix(c, rho, on_para_eq_constraint=True))
     need(dev(var, ref[1:]), "C02/state/to_var_from_density_matrix(eq)/formula", "to_var_from_density_matrix(eq) != tr(B_a^† ρ), a ≥ 1")
 
